@@ -125,7 +125,8 @@ class SymTok:
 
     @property
     def code(self):
-        return self._data
+        return rt.choose(self.kind, list(range(len(self.alpha))),
+                         [real_token(e).code for e in self.alpha])
 
     @property
     def value(self):
